@@ -825,6 +825,11 @@ func verifAssert(b bool) {}
 //@   ensures specU32At(a, p) == v
 func lemmaU32At(a string, p int, v int) {}
 
+//@ contract lemmaU16At
+//@   requires p >= 0 && p+2 <= len(a) && v >= 0 && v < 65536 && a[p:p+2] == specEnc16(v)
+//@   ensures specU16At(a, p) == v
+func lemmaU16At(a string, p int, v int) {}
+
 //@ contract lemmaRTElapsedTime
 //@   requires op != nil
 //@   requires op.ElapsedTime >= 0 && int(op.ElapsedTime) <= 655350000000 && int(op.ElapsedTime)%10000000 == 0
@@ -1208,6 +1213,56 @@ func lemmaFixIAAddress(data []byte) {
 	err := r.FromBytes(b)
 	verifAssert(err == nil)
 	verifAssert(string(r.IPv6Addr) == string(q.IPv6Addr) && r.PreferredLifetime == q.PreferredLifetime && r.ValidLifetime == q.ValidLifetime)
+}
+
+// DUIDs (the values of the client and server identifier options): decode, encode, decode, encode
+//@ contract lemmaFixDUIDLLT
+func lemmaFixDUIDLLT(p []byte) {
+	var q DUIDLLT
+	if q.FromBytes(p) != nil {
+		return
+	}
+	b := q.ToBytes()
+	lemmaU16At(string(b[2:]), 0, int(q.HWType))
+	lemmaU32At(string(b[2:]), 2, int(q.Time))
+	var r DUIDLLT
+	err := r.FromBytes(b[2:])
+	verifAssert(err == nil)
+	verifAssert(r.HWType == q.HWType && r.Time == q.Time && string(r.LinkLayerAddr) == string(q.LinkLayerAddr))
+	b2 := r.ToBytes()
+	verifAssert(string(b2) == string(b))
+}
+
+//@ contract lemmaFixDUIDLL
+func lemmaFixDUIDLL(p []byte) {
+	var q DUIDLL
+	if q.FromBytes(p) != nil {
+		return
+	}
+	b := q.ToBytes()
+	lemmaU16At(string(b[2:]), 0, int(q.HWType))
+	var r DUIDLL
+	err := r.FromBytes(b[2:])
+	verifAssert(err == nil)
+	verifAssert(r.HWType == q.HWType && string(r.LinkLayerAddr) == string(q.LinkLayerAddr))
+	b2 := r.ToBytes()
+	verifAssert(string(b2) == string(b))
+}
+
+//@ contract lemmaFixDUIDEN
+func lemmaFixDUIDEN(p []byte) {
+	var q DUIDEN
+	if q.FromBytes(p) != nil {
+		return
+	}
+	b := q.ToBytes()
+	lemmaU32At(string(b[2:]), 0, int(q.EnterpriseNumber))
+	var r DUIDEN
+	err := r.FromBytes(b[2:])
+	verifAssert(err == nil)
+	verifAssert(r.EnterpriseNumber == q.EnterpriseNumber && string(r.EnterpriseIdentifier) == string(q.EnterpriseIdentifier))
+	b2 := r.ToBytes()
+	verifAssert(string(b2) == string(b))
 }
 
 //@ contract lemmaFixRemoteID
